@@ -31,6 +31,7 @@ import (
 	proxyv1alpha1 "github.com/kubewharf/kubegateway/pkg/apis/proxy/v1alpha1"
 	gatewayfake "github.com/kubewharf/kubegateway/pkg/client/kubernetes/fake"
 	"github.com/kubewharf/kubegateway/pkg/ratelimiter/limiter"
+	"github.com/kubewharf/kubegateway/pkg/ratelimiter/limiter/elector"
 	"github.com/kubewharf/kubegateway/pkg/ratelimiter/options"
 	rlutil "github.com/kubewharf/kubegateway/pkg/ratelimiter/util"
 
@@ -60,6 +61,7 @@ type step struct {
 	Shard  int    `json:"shard,omitempty"`
 	Uc     string `json:"uc,omitempty"` // used class relative to the instance's current quota: zero|half|full|over
 	Lc     string `json:"lc,omitempty"` // level class: honest|zero|over
+	Op     string `json:"op,omitempty"` // el: setself|setother|stopbegin|cbstart|cbstop
 }
 
 type scenario struct {
@@ -71,6 +73,61 @@ type scenario struct {
 	Steps     []step     `json:"steps"`
 	// followers can not take a lease until a "healshard" step allows it (C13 histories)
 	FollowersBlocked bool `json:"followersBlocked,omitempty"`
+	// "scripted": the servers' leader electors are replaced (hook limiter.VerifSetLeaderElector) by one whose observable
+	// steps are taken one at a time by "el" steps (Leadership.tla)
+	Elector string `json:"elector,omitempty"`
+}
+
+// scriptedElector mirrors limiter/elector.leaderElector (leaderInfo + callbacks) but takes its steps when told to
+type scriptedElector struct {
+	mu   sync.RWMutex
+	id   string
+	info map[int]proxyv1alpha1.EndpointInfo
+	cb   elector.LeaderCallbacks
+}
+
+func (l *scriptedElector) Run(ctx context.Context) {}
+func (l *scriptedElector) IsLeader(sh int) bool {
+	l.mu.RLock()
+	defer l.mu.RUnlock()
+	return l.info[sh].Leader == l.id
+}
+func (l *scriptedElector) GetLeaders() map[int]proxyv1alpha1.EndpointInfo {
+	l.mu.RLock()
+	defer l.mu.RUnlock()
+	out := map[int]proxyv1alpha1.EndpointInfo{}
+	for k, v := range l.info {
+		out[k] = v
+	}
+	return out
+}
+func (l *scriptedElector) SetCallbacks(cb elector.LeaderCallbacks) { l.cb = cb }
+func (l *scriptedElector) setLeader(sh int, who string) {
+	l.mu.Lock()
+	defer l.mu.Unlock()
+	info := l.info[sh]
+	info.ShardID = int32(sh)
+	info.Leader = who
+	info.LastChange = metav1.Now()
+	l.info[sh] = info
+}
+func (l *scriptedElector) step(op string, sh int) {
+	switch op {
+	case "setself":
+		l.setLeader(sh, l.id)
+	case "setother":
+		l.setLeader(sh, "other-server")
+	case "stopbegin":
+		l.mu.Lock()
+		if l.info[sh].Leader == l.id {
+			delete(l.info, sh)
+		}
+		l.mu.Unlock()
+	case "cbstart":
+		l.cb.OnStartedLeading(sh)
+	case "cbstop":
+		l.cb.OnStoppedLeading(sh)
+	}
 }
 
 type ev map[string]interface{}
@@ -81,6 +138,7 @@ type server struct {
 	stop   chan struct{}
 	failed *bool
 	fshard map[int]bool // lease operations of this server fail for these shards
+	el     *scriptedElector
 }
 
 func schema(u upstream) proxyv1alpha1.FlowControlSchema {
@@ -438,6 +496,14 @@ func (w *world) doStep(st step) {
 				w.add(e)
 			}
 		}
+	case "el":
+		s := w.srv(st.Srv)
+		if s.el == nil {
+			t.Fatalf("el step without a scripted elector")
+		}
+		s.el.step(st.Op, st.Shard)
+		synctest.Wait()
+		w.add(ev{"k": "el", "srv": s.name, "op": st.Op, "shard": st.Shard})
 	case "failrenew":
 		*w.srv(st.Srv).failed = true
 		w.add(ev{"k": "failrenew", "srv": w.srv(st.Srv).name})
@@ -499,6 +565,10 @@ func runScenario(t *testing.T, sc scenario) []ev {
 				t.Fatalf("NewRateLimiter: %v", err)
 			}
 			s := &server{name: n, rl: rl, stop: make(chan struct{}), failed: failed[n], fshard: map[int]bool{}}
+			if sc.Elector == "scripted" {
+				s.el = &scriptedElector{id: n, info: map[int]proxyv1alpha1.EndpointInfo{}}
+				limiter.VerifSetLeaderElector(rl, s.el)
+			}
 			if n != sc.Servers[0] && sc.FollowersBlocked {
 				for sh := 0; sh < sc.Shards; sh++ {
 					s.fshard[sh] = true
